@@ -101,6 +101,11 @@ def gen_seq_sel(rng, n):
         if rng.random() < 0.85:
             ops.append(f"loaddb {rng.choice(VIA)} {i}")
     nums = [1, 2, 5, 77]
+    for i in (0, 1):
+        # some per-number state before anything else happens
+        for k in rng.sample(nums, 2):
+            ops += [f"g4 {rng.choice(VIA)} SetCurrentSelectedOutputUserNumber {i} {k}",
+                    f"g4 {rng.choice(VIA)} SetSelectedOutput{rng.choice(['File', 'String'])}On {i} 1"]
     for _ in range(n):
         i = rng.choice([0, 0, 1, 1, 2, -1])
         via = rng.choice(VIA)
@@ -122,9 +127,16 @@ def gen_seq_sel(rng, n):
             ops.append(f"g1 GetCurrentSelectedOutputUserNumber {i}")
         elif r < 0.94:
             ops.append(rng.choice([f"loaddb {via} {i}", f"loadbad {via} {i}"]))
+            if rng.random() < 0.8:
+                # read back everything a load may or may not reset: per-number switches and names of several numbers
+                for k in rng.sample(nums, 2) + [1]:
+                    ops += [f"g4 {rng.choice(VIA)} SetCurrentSelectedOutputUserNumber {i} {k}", f"g1 GetSelectedOutputFileOn {i}",
+                            f"g1 GetSelectedOutputStringOn {i}", f"g2 GetSelectedOutputFileName {i} 48"]
         elif r < 0.97:
             ops.append(rng.choice([f"g5 {via} RunString {i} {hexs('TITLE t' + chr(10))}", f"g1 RunAccumulated {i}",
-                                   f"g5 {via} AccumulateLine {i} {hexs('TITLE acc')}"]))
+                                   f"g5 {via} AccumulateLine {i} {hexs('TITLE acc')}", f"g1 ClearAccumulatedLines {i}"]))
+            if rng.random() < 0.6:
+                ops += [f"g1 RunAccumulated {i}", f"g2 GetSelectedOutputFileName {i} 48"]
         else:
             ops.append(rng.choice([f"destroy {i}", "create", f"nth {i} {rng.choice([0, 1, 2])}", f"g1 GetSelectedOutputCount {i}"]))
     return ops
@@ -221,8 +233,11 @@ class Runner:
     """runs op lists in a scratch directory (runs with file switches on create files named after the defaults)"""
 
     def __init__(self, ctx, exe):
-        self.ctx, self.exe = ctx, exe
+        self.ctx = ctx
         self.dir = tempfile.mkdtemp(prefix="c13_")
+        # private copy of the harness: a concurrent check may recompile the shared binary in place
+        with vlib.Lock("harness-ph_apilib"):
+            self.exe = shutil.copy2(exe, os.path.join(self.dir, "ph_api"))
         self.env = dict(os.environ, PH_DB=str(vlib.REPO / "database" / "phreeqc.dat"))
 
     def close(self):
@@ -392,7 +407,15 @@ def explore(ctx, runner, ok):
     if not ok:
         nseq = max(nseq, 5000)
     hist = {}
-    seqs = [(gen_seq_sel if k % 4 == 3 else gen_seq)(ctx.rng, ctx.rng.randint(2, 40)) for k in range(nseq)]
+    import json
+    corpus = []
+    for f in sorted((vlib.ROOT / "corpus" / "C13").glob("*.json")):      # minimised past disagreements, always replayed first
+        try:
+            corpus.append(json.loads(f.read_text())["ops"])
+        except Exception:
+            pass
+    ctx.cov["corpus_cases"] = len(corpus)
+    seqs = corpus + [(gen_seq_sel if k % 4 == 3 else gen_seq)(ctx.rng, ctx.rng.randint(2, 40)) for k in range(nseq)]
     if ctx.tier == "thorough" or not ok:
         # exhaustive: all sequences of length <= 4 over the alphabet
         for L in range(1, 5):
